@@ -31,7 +31,7 @@ PROPS = {
              eps=('confirm',), cats=('status', 'bal', 'events'), views=('confirmed',), coq=('Proofs/Confirm.v',)),
     'C08': P('filter refines compaction of the allocation list; partition of 1..total; winners cap',
              eps=('filter',), cats=('status', 'ret'), views=('range', 'totalFor', 'totalTickets', 'nrWinning'),
-             coq=('Proofs/Filter.v', 'Proofs/Partition.v')),
+             coq=('Proofs/Filter.v', 'Proofs/Partition.v', 'Proofs/Tiling.v')),
     'C09': P('settlement exactly once, for what the views reported', eps=('claim',), cats=('status', 'bal'),
              views=('claimed', 'range', 'confirmed', 'winIds', 'totalClaimable'), coq=('Proofs/Claim.v',)),
     'C10': P('blacklist refunds in full and excludes; un-blacklist restores and frames',
